@@ -17,9 +17,18 @@ import (
 type Listener func(point string, arg any)
 
 type slot struct {
-	mu sync.RWMutex
-	ls map[int]Listener
-	n  int
+	mu  sync.Mutex
+	ls  map[int]Listener
+	n   int
+	cur atomic.Pointer[[]Listener] // copy-on-write snapshot read without locking
+}
+
+func (s *slot) rebuild() {
+	ls := make([]Listener, 0, len(s.ls))
+	for _, l := range s.ls {
+		ls = append(ls, l)
+	}
+	s.cur.Store(&ls)
 }
 
 func (s *slot) add(l Listener) func() {
@@ -30,22 +39,17 @@ func (s *slot) add(l Listener) func() {
 	s.n++
 	id := s.n
 	s.ls[id] = l
+	s.rebuild()
 	s.mu.Unlock()
-	return func() { s.mu.Lock(); delete(s.ls, id); s.mu.Unlock() }
+	return func() { s.mu.Lock(); delete(s.ls, id); s.rebuild(); s.mu.Unlock() }
 }
 
 func (s *slot) dispatch(point string, arg any) {
-	s.mu.RLock()
-	if len(s.ls) == 0 {
-		s.mu.RUnlock()
+	p := s.cur.Load()
+	if p == nil {
 		return
 	}
-	ls := make([]Listener, 0, len(s.ls))
-	for _, l := range s.ls {
-		ls = append(ls, l)
-	}
-	s.mu.RUnlock()
-	for _, l := range ls {
+	for _, l := range *p {
 		l(point, arg)
 	}
 }
